@@ -82,11 +82,16 @@ def register_forward_ref(
             #   attr1: 'forward' = Field(gt=1)
             #   attr2: 'forward' = Field(gt=2)
             # we use forward_key (attname) over forward_arg
-            forward_refs.setdefault(
-                f"${forward_key}" if forward_key else annotation.__forward_arg__,
-                # use a $ to differ from forward arg
-                (annotation, constraints),
-            )
+            key = f"${forward_key}" if forward_key else annotation.__forward_arg__
+            # use a $ to differ from forward arg
+            while key in forward_refs and forward_refs[key][0] is not annotation:
+                # class A:
+                #   attr1: List['forward']
+                #   attr2: Dict[str, 'forward']
+                # the same name referenced by another ForwardRef object: register it too,
+                # otherwise it will never be evaluated
+                key += "'"
+            forward_refs.setdefault(key, (annotation, constraints))
             # still not evaluated
             return annotation
         # raise TypeError(f'{repr(forward_key)}: Unsupported ForwardRef: {annotation}')
